@@ -120,11 +120,8 @@ pub fn to_lossy_bytes(input: &str) -> Cow<[u8]> {
         buf.fill(0);
         let char_as_bytes = c.encode_utf8(&mut buf);
 
-        // allowing unwrap because we should never get to a position where we cannot have one
-        let (cow, _, error) = current_encoding.encode(char_as_bytes);
-
-        if !error {
-            output.extend_from_slice(&cow);
+        if let Some(bytes) = encode_char(current_encoding, char_as_bytes) {
+            output.extend_from_slice(&bytes);
             continue;
         }
 
@@ -141,11 +138,10 @@ pub fn to_lossy_bytes(input: &str) -> Cow<[u8]> {
                 .unwrap_or_else(|| unreachable!());
 
             // try to encode the current character
-            let (cow, _, error) = candidate_encoding.encode(char_as_bytes);
-            if error {
+            let Some(cow) = encode_char(candidate_encoding, char_as_bytes) else {
                 // this codepage doesnt match, try the next one
                 continue;
-            }
+            };
 
             // this one matched, push the control character and codepage control character
             output.push(u8::lfs_control_char());
@@ -167,6 +163,25 @@ pub fn to_lossy_bytes(input: &str) -> Cow<[u8]> {
     }
 
     output.into()
+}
+
+/// Encode a single character in the given codepage, if that codepage really has it.
+/// The encoders contain a few one-way "best fit" mappings (i.e. Shift_JIS writes the yen sign U+00A5 as 0x5C,
+/// which reads back as a backslash): such a character is not in the codepage as far as a reader is concerned,
+/// so we only accept bytes that decode to the character we started with.
+fn encode_char<'a>(
+    encoding: &'static encoding_rs::Encoding,
+    char_as_bytes: &'a str,
+) -> Option<Cow<'a, [u8]>> {
+    let (bytes, _, error) = encoding.encode(char_as_bytes);
+    if error {
+        return None;
+    }
+    let (decoded, error) = encoding.decode_without_bom_handling(&bytes);
+    if error || decoded != char_as_bytes {
+        return None;
+    }
+    Some(bytes)
 }
 
 /// Is this byte the first byte of a double byte character in the given codepage?
